@@ -152,7 +152,7 @@ def run(F, R):
         elif (c.declared or "").endswith(("Fn::call", "FnMut::call_mut", "FnOnce::call_once")) and c.args and c.args[0][0] in ("c", "m"):
             o, _ = trace(iv, c.args[0])
             root = c.args[0][1][0]
-            locs = {root} | {d_[1][1][1][0] for d_ in iv.defs_of_local(root) if d_[1][0] == "ref"}
+            locs = {root} | {d_[1][1][1][0] for d_ in iv.defs_of_local(root) if d_[1][1][0] == "ref"}
             if locs & set(wrap):
                 sites.append((c.bb, c.where(), "closure"))
         elif c.callee and re.search(r"::(find_map|map|for_each|any|all|filter_map)$", c.callee):
